@@ -1000,7 +1000,9 @@ fn main() {
                     // the statements after the remainder test and the round loop
                     let mut idx = 0;
                     for (i, s) in f.block.stmts.iter().enumerate() {
-                        if matches!(s, Stmt::Expr(Expr::ForLoop(_), _)) || matches!(s, Stmt::Expr(Expr::If(_), _)) {
+                        // the prologue may also have been hoisted into a helper method called for its effect
+                        let helper = matches!(s, Stmt::Expr(Expr::MethodCall(m), Some(_)) if matches!(&*m.receiver, Expr::Path(p) if p.path.is_ident("self")));
+                        if matches!(s, Stmt::Expr(Expr::ForLoop(_), _)) || matches!(s, Stmt::Expr(Expr::If(_), _)) || helper {
                             idx = i + 1;
                         }
                     }
